@@ -169,6 +169,31 @@ def modfunc(ex, state, mod, name, args, kw, line):
         return SList(state.alloc(), None, items=list(npmodel.svd(ex, state, args[0], kw.get('full_matrices', True), kw.get('overwrite_a', False) is True, line)))
     if mod in ('linalg', 'lin') and name in ('qr', 'rq'):
         return qr_rq(ex, state, name, args[0], kw, line)
+    if (mod == 'np.linalg' and name == 'solve') or (mod in ('lin', 'linalg') and name == 'solve'):
+        a, b = npmodel.need_rank(ex, state, args[0], line), npmodel.need_rank(ex, state, args[1], line)
+        if len(a.shape) != 2 or len(b.shape) != 2:
+            raise Unsupported('solve with non-matrix arguments at line %d' % line)
+        ex.ctx.oblige(state, 'solve-square', line, a.shape[0] == a.shape[1], 'coefficient matrix must be square')
+        ex.ctx.oblige(state, 'solve-shape', line, a.shape[0] == b.shape[0], 'right-hand side does not match the matrix')
+        if kw.get('overwrite_a') is True:
+            ex.write_buffer(a.buf, state, line, 'LAPACK overwrite_a=True')
+        if kw.get('overwrite_b') is True:
+            ex.write_buffer(b.buf, state, line, 'LAPACK overwrite_b=True')
+        return npmodel.new_arr(state, list(b.shape), z3.simplify(z3.Or(a.cplx, b.cplx)))
+    if mod in ('lin', 'linalg') and name == 'lu_factor':
+        a = npmodel.need_rank(ex, state, args[0], line)
+        ex.ctx.oblige(state, 'solve-square', line, a.shape[0] == a.shape[1], 'coefficient matrix must be square')
+        if kw.get('overwrite_a') is True:
+            ex.write_buffer(a.buf, state, line, 'LAPACK overwrite_a=True')
+        return ('lu', a)
+    if mod in ('lin', 'linalg') and name == 'lu_solve':
+        lu, b = args[0], npmodel.need_rank(ex, state, args[1], line)
+        if not is_tag(lu, 'lu'):
+            raise Unsupported('lu_solve argument at line %d' % line)
+        ex.ctx.oblige(state, 'solve-shape', line, lu[1].shape[0] == b.shape[0], 'right-hand side does not match the matrix')
+        if kw.get('overwrite_b') is True:
+            ex.write_buffer(b.buf, state, line, 'LAPACK overwrite_b=True')
+        return npmodel.new_arr(state, list(b.shape), z3.simplify(z3.Or(lu[1].cplx, b.cplx)))
     if mod != 'np':
         raise Unsupported('call of %s.%s at line %d' % (mod, name, line))
     if name in ('zeros', 'ones', 'empty'):
@@ -277,6 +302,11 @@ def modfunc(ex, state, mod, name, args, kw, line):
             return (idx,)
         raise Unsupported('np.where at line %d' % line)
     if name == 'array':
+        # only the idiom np.array([1], ndmin=k): a (1, ..., 1) array
+        a0 = args[0]
+        nd = as_conc(kw.get('ndmin', 1))
+        if isinstance(a0, SList) and a0.items is not None and len(a0.items) == 1 and is_conc_int(a0.items[0]) and nd is not None:
+            return npmodel.new_arr(state, [1] * nd, False)
         raise Unsupported('np.array at line %d' % line)
     if name == 'sum':
         a = args[0]
